@@ -39,10 +39,46 @@ func c16Replies(c *vk.Ctx) {
 			}
 		}
 	}
+	// … and deeper histories of EVENTs only (an event may leave the store and become storable again: deletion
+	// of its deletion request, replacement, eviction), ended by one REQ: canonical schedule, length <= 5/6
+	evs := []int{0, 2, 3, 4, 5, 14}
+	deep := vk.Pick(c, 5, 6)
+	var gen func(prefix []int)
+	gen = func(prefix []int) {
+		if len(prefix) >= 4 { // shorter ones are covered above
+			code, mul := 0, 1
+			for _, d := range append(append([]int{}, prefix...), 6) {
+				code += d * mul
+				mul *= harness.C16Msgs
+			}
+			jobs = append(jobs, Job{Harness: "StorageSeq", Bound: 0, Delay: true, Params: map[string]int{"store": 0, "L": len(prefix) + 1, "code": code}})
+		}
+		if len(prefix) == deep {
+			return
+		}
+		for _, d := range evs {
+			gen(append(prefix, d))
+		}
+	}
+	gen(nil)
+	// (whether a deletion request deletes another deletion request in the SQLite store is not claimed
+	// by C06; the message is left out of the SQLite sequences)
+	usesDel2 := func(code, L int) bool {
+		for i := 0; i < L; i++ {
+			if code%harness.C16Msgs == 14 {
+				return true
+			}
+			code /= harness.C16Msgs
+		}
+		return false
+	}
 	// sqlite handler: stepwise (the asynchronous insertion completes at every quiescence)
 	Ls := vk.Pick(c, 2, 3)
 	for L := 1; L <= Ls; L++ {
 		for code := 0; code < pow(harness.C16Msgs, L); code++ {
+			if usesDel2(code, L) {
+				continue
+			}
 			jobs = append(jobs, Job{Harness: "StorageSeq", Bound: 0, Delay: true, Params: map[string]int{"store": 1, "L": L, "code": code, "step": 1}})
 		}
 	}
@@ -50,6 +86,9 @@ func c16Replies(c *vk.Ctx) {
 	// schedule: the writer, the session, the reader and the bulk-insert goroutine with its 2-slot queue)
 	for L := 2; L <= 3; L++ {
 		for code := 0; code < pow(harness.C16Msgs, L); code++ {
+			if usesDel2(code, L) {
+				continue
+			}
 			jobs = append(jobs, Job{Harness: "StorageSeq", Bound: -1, BudgetS: 60, FallbackDelay: 3, Params: map[string]int{"store": 1, "L": L, "code": code}})
 		}
 	}
@@ -65,7 +104,7 @@ func c16Replies(c *vk.Ctx) {
 			}
 		}
 	}
-	c.P.Rule = "E1: every client message sequence up to length 3/4 over 14 messages (EVENT new / same again / newer version / older version / deletion request / ephemeral; REQ all / filtered / limit 1 / two filters of which one has limit 0 / with an undecodable id, for which the SQLite query fails; COUNT; CLOSE; AUTH) through the real CacheHandler.ServeNostr (canonical schedule; all schedules for every length-2 sequence and an 8-message core at length 3) and up to length 2/3 through the real SQLite handler (in-memory database, stepwise with quiescence after each message; pipelined: every schedule of writer, session, reader and the bulk-insert goroutine behind its 2-slot queue, for all sequences of length 2 and 3, and of length 4 over the core in the thorough tier); oracle: the reply stream is the concatenation, in request order, of the per-request replies"
+	c.P.Rule = "E1: every client message sequence up to length 3/4 over 15 messages (EVENT new / same again / newer version / older version / deletion request / deletion request for that request / ephemeral; REQ all / filtered / limit 1 / two filters of which one has limit 0 / with an undecodable id, for which the SQLite query fails; COUNT; CLOSE; AUTH) through the real CacheHandler.ServeNostr (canonical schedule; all schedules for every length-2 sequence and an 8-message core at length 3; every sequence of 4-5/6 EVENTs followed by one REQ on the canonical schedule) and up to length 2/3 through the real SQLite handler (in-memory database, stepwise with quiescence after each message; pipelined: every schedule of writer, session, reader and the bulk-insert goroutine behind its 2-slot queue, for all sequences of length 2 and 3, and of length 4 over the core in the thorough tier); oracle: the reply stream is the concatenation, in request order, of the per-request replies"
 	res := runJobs(c, jobs)
 	for i, r := range res {
 		if i%700 == 0 {
